@@ -11,17 +11,23 @@
 (*   {"e":"Reset","n":round,"slot":"fresh|shared|internal"}                *)
 (*        the kind of slot the round runs on; an initialiser may only use  *)
 (*        the entry points of that kind (KindsFor)                         *)
-(*   {"e":"InitCall","i":tag,"k":kind}                                     *)
+(*   {"e":"InitCall","i":tag,"k":kind,"f":form}   form = how the           *)
+(*        configuration is built (Slot.tla, SetupForms / RuntimeForms)     *)
 (*   {"e":"InitRet","i":tag,"r":"some|nil|ok|panic","own":bool}            *)
 (*   {"e":"ObsCall","o":id,"op":op,"via":entry point,"tmo":timeout}        *)
 (*   {"e":"ObsRet","o":id,"tags":[5 tags],"en":bool,"fl":bool,"pan":bool,  *)
-(*    "fa":0|1|2}   fl = what flush returned, fa = what the tagged emitter *)
-(*                  answered (0 not asked, 1 false, 2 true)                *)
-(*   {"e":"HCall","i":tag,"op":"h_probe|h_flush|h_guard_drop","tmo":..}    *)
-(*   {"e":"HRet","i":tag,"tags":[5 tags],"fl":bool,"fa":0|1|2,"nfl":k,     *)
-(*    "pan":bool}  an operation of a successful initialiser through its    *)
-(*                 Init handle; nfl = times the tagged emitter was asked   *)
-(*                 to flush during it                                      *)
+(*    "ne":k,"fls":[leaf..],"fas":[bool..],"fb":"na|eq|lt|gt"}             *)
+(*        fl = what flush returned; ne = invocations of tagged emitter     *)
+(*        destinations during the operation; fls / fas = the destinations  *)
+(*        asked to flush, in order, and their answers; fb = the sum of the *)
+(*        budgets they were handed compared with the caller's timeout      *)
+(*        (na: none was asked)                                             *)
+(*   {"e":"HCall","i":tag,"op":"h_probe|h_flush|h_guard_drop|              *)
+(*    h_guard_unwind","tmo":..}                                            *)
+(*   {"e":"HRet","i":tag,"tags":[5 tags],"fl":bool,"ne":k,"fls":[..],      *)
+(*    "fas":[..],"fb":..,"pan":bool}  an operation of an initialiser of a  *)
+(*        Setup form on what it was handed (the winner: its Init handle;   *)
+(*        a loser of a try_ form: nothing - the guard operations only)     *)
 (*   {"e":"Tally","used":[invocations of the components tagged 1..]}       *)
 (*   {"e":"Hang","t":thread,"in":call}  a call that never returned: no     *)
 (*                  action matches it, the round is rejected               *)
@@ -58,6 +64,7 @@ TReset ==
     /\ ikind' = [i \in Inits |-> "none"]
     /\ ires' = [i \in Inits |-> "none"]
     /\ iret' = [i \in Inits |-> "none"]
+    /\ iform' = [i \in Inits |-> "none"]
     /\ opc' = [o \in Observers |-> "idle"]
     /\ oop' = [o \in Observers |-> "none"]
     /\ oread' = [o \in Observers |-> <<>>]
@@ -72,8 +79,8 @@ TReset ==
 
 TInitCall ==
     /\ IsEv("InitCall") /\ Ev.i \in Inits
-    /\ Ev.k \in KindsFor(target)
-    /\ InitCall(Ev.i, Ev.k)
+    /\ Ev.k \in KindsFor(target) /\ Ev.f \in Forms
+    /\ InitCall(Ev.i, Ev.k, Ev.f)
     /\ l' = l + 1 /\ UNCHANGED <<target, hvars>>
 
 \* the result is the one the specification determines; a successful initialiser is handed
@@ -88,10 +95,21 @@ TObsCall ==
     /\ IsEv("ObsCall") /\ Ev.o \in Observers /\ ObsCall(Ev.o, Ev.op)
     /\ l' = l + 1 /\ UNCHANGED <<target, hvars>>
 
+\* what a flush through a configuration with n destinations, splitting the budget or not, must
+\* look like: every destination asked once, in order; the result is the conjunction of their
+\* answers; the budgets handed out fit the caller's timeout - and are the caller's timeout where
+\* nothing stands between
+FlushSeen(ev, n, split) ==
+    /\ ev.fls = [k \in 1..n |-> k]
+    /\ Len(ev.fas) = n
+    /\ ev.fb \in (IF n = 0 THEN {"na"} ELSE IF split THEN {"eq", "lt"} ELSE {"eq"})
+FlushAnswer(ev) == \A k \in 1..Len(ev.fas) : ev.fas[k]
+
 \* the observation is the one the read determines: the same tag in every component the
-\* operation exercises, is_enabled accordingly, never a panic; flush returns true on the empty
-\* slot (whatever the timeout) without any emitter being asked, and on an initialised slot
-\* it returns what the installed emitter answered
+\* operation exercises (every destination of the emitter reached once), is_enabled accordingly,
+\* never a panic; flush returns true on the empty slot (whatever the timeout) without any
+\* emitter being asked, and on an initialised slot it returns what the installed emitter's
+\* destinations answered
 TObsRet ==
     /\ IsEv("ObsRet") /\ Ev.o \in Observers
     /\ opc[Ev.o] = "read"
@@ -99,8 +117,9 @@ TObsRet ==
     /\ LET res == ResultOf(Ev.o)
        IN /\ \A k \in 1..NComp : Ev.tags[k] = res.tags[k]
           /\ res.op = "is_enabled" => Ev.en = res.en
-          /\ (res.op = "flush" /\ ~res.en) => Ev.fl /\ Ev.fa = 0
-          /\ (res.op = "flush" /\ res.en) => Ev.fa # 0 /\ (Ev.fl <=> Ev.fa = 2)
+          /\ Ev.ne = res.ne
+          /\ res.op = "flush" => FlushSeen(Ev, res.ne, res.split) /\ (Ev.fl <=> FlushAnswer(Ev))
+          /\ res.op # "flush" => FlushSeen(Ev, 0, FALSE)
           /\ ObsRet(Ev.o, res)
     /\ l' = l + 1 /\ UNCHANGED <<target, hvars>>
 
@@ -118,16 +137,17 @@ THCall ==
     /\ l' = l + 1 /\ UNCHANGED target
 
 \* every component reached is the caller's own (and by HandleIsInstalled the installed
-\* one); a flush returns what that emitter answered and asks it exactly once
+\* one); a flush returns what that emitter's destinations answered and asks each exactly once,
+\* a guard does so when it is dropped (also by an unwinding panic); a loser reaches nothing
 THRet ==
     /\ IsEv("HRet") /\ Ev.i \in Inits
     /\ hnd[Ev.i].pc = "called"
     /\ ~Ev.pan
     /\ LET res == HResultOf(Ev.i)
        IN /\ \A k \in 1..NComp : Ev.tags[k] = res.tags[k]
-          /\ Ev.nfl = res.flushes
-          /\ res.op = "h_flush" => Ev.fa # 0 /\ (Ev.fl <=> Ev.fa = 2)
-          /\ res.op = "h_guard_drop" => Ev.fa # 0
+          /\ Ev.ne = res.ne
+          /\ FlushSeen(Ev, res.flushes, res.split)
+          /\ res.op = "h_flush" => (Ev.fl <=> FlushAnswer(Ev))
           /\ HandleRet(Ev.i, res)
     /\ l' = l + 1 /\ UNCHANGED target
 
@@ -141,7 +161,7 @@ TNext == TReset \/ TInitCall \/ TInitRet \/ TObsCall \/ TObsRet \/ TTally \/ TTr
 TSpec == TInit /\ [][TNext]_tvars
 
 \* obsLog only grows within a round; it is not needed to decide a trace
-TView == <<slot, ipc, ikind, ires, opc, oop, oread, ocount, l, target>>
+TView == <<slot, ipc, ikind, iform, ires, opc, oop, oread, ocount, l, target>>
 
 NCalls == Cardinality({k \in 1..Len(Rec) : Rec[k].e \in {"InitCall", "ObsCall"}})
 
